@@ -35,9 +35,11 @@ HEADER = (
     "from Reduino.Communication import SerialMonitor\n"
     "from Reduino.Utils import sleep\n"
     "from Reduino.Actuators import Led\n"
+    "from Reduino.Displays import LCD\n"
     "target(\"COM3\", upload=False)\n"
     "mon = SerialMonitor(9600)\n"
     "led = Led(13)\n"
+    "lcd = LCD(rs=12, en=11, d4=5, d5=4, d6=3, d7=2)\n"
 )
 
 # ------------------------------------------------------------------ values / environments
@@ -453,7 +455,14 @@ class ProgGen:
                 xs = self.bound(env, STR_N + LIST_N)
                 if xs:
                     return ("len", rng.choice(xs))
-            elif r < 0.88:
+            elif r < 0.84:
+                ks = self.known(env, INT_N)
+                pool = [str(rng.randint(0, 31)), "0", "31", "True", "2.5"] + ks * 3
+                if not self.guarded and rng.random() < 0.1:
+                    pool += self.bound(env, RT_N)
+                if ks or rng.random() < 0.3:
+                    return ("glyph", [rng.choice(pool) for _ in range(8 if rng.random() < 0.95 or self.guarded else 7)])
+            elif r < 0.90:
                 xs = self.known(env, LIST_N)
                 xs = [x for x in xs if all(v is not None for v in env[x][1])]
                 if xs:
@@ -540,6 +549,8 @@ def wire_prog(p):
             out.append([3, 0, s[1]])
         elif k == "flash":
             out.append([3, 1, s[1]])
+        elif k == "glyph":
+            out.append([3, 2, W.enc_src("[" + ", ".join(s[1]) + "]")])
         elif k == "if":
             out.append([5, wire_prog(s[1]), wire_prog(s[2])])
         elif k == "while":
@@ -575,6 +586,8 @@ def render_prog(p, sfx, header=True):
                 lines.append(f"{pad}mon.write(len({rn(s[1])}))")
             elif k == "flash":
                 lines.append(f"{pad}led.flash_pattern({rn(s[1])}, 3)")
+            elif k == "glyph":
+                lines.append(f"{pad}lcd.glyph(0, [{', '.join(rn(x) for x in s[1])}])")
             elif k == "if":
                 cid[0] += 1
                 c = f"c{cid[0]}_{sfx}"
@@ -649,6 +662,8 @@ def fw_obs(events):
             out.append(["P", int(e.split()[2])])
         elif e.startswith("AW 13 "):
             out.append(["P", int(float(e.split()[2]))])
+        elif e.startswith("LCG "):
+            out.append(["G", [int(x) for x in e.split()[3:11]]])
     return out
 
 
@@ -659,7 +674,9 @@ def model_obs(w):
     out = []
     for v in w[0]:
         pv = W.dec_val(v)
-        if isinstance(pv, list):
+        if isinstance(pv, tuple):
+            out.append(["G", [int(x) & 0x1F for x in pv]])      # the emitter and the host class both mask the rows
+        elif isinstance(pv, list):
             out += [["P", int(x)] for x in pv]
         else:
             out.append(["S", str(pv)])
@@ -673,7 +690,7 @@ def model_static(w):
             out.append(["rt"])
         else:
             pv = W.dec_val(o[1])
-            out.append(["flash", [int(x) for x in pv]] if isinstance(pv, list) else ["len", pv])
+            out.append(["glyph", [int(x) for x in pv]] if isinstance(pv, tuple) else ["flash", [int(x) for x in pv]] if isinstance(pv, list) else ["len", pv])
     return out
 
 
@@ -690,6 +707,8 @@ WITNESSES = {
         "prog": [("assign", "vs", "'ab'"), ("while", [("len", "vs"), ("assign", "vs", "'abcd'")]), ("len", "vs")], "dr": [], "ar": [2]},
     "F-C03-remove-unknown-pops-first": {
         "prog": [("assign", "vp", "[1, 0]"), ("rt", "vm", 19), ("remove", "vp", "vm"), ("flash", "vp")], "dr": [], "ar": []},
+    "F-C03-stale-glyph-row": {
+        "prog": [("assign", "va", "1"), ("if", [("assign", "va", "2")], []), ("glyph", ["va", "0", "0", "0", "0", "0", "0", "0"])], "dr": [1], "ar": []},
     "F-C03-unary-plus-identity": {
         "prog": [("assign", "vs", "f\"{+True}\""), ("len", "vs")], "dr": [], "ar": []},
 }
@@ -758,6 +777,17 @@ def layer_b(ctx, stats):
         g = (i % 5) != 4                       # 80 % inside the guard (these feed the oracle), 20 % anything
         progs.append(ProgGen(rng, g, 3 if thorough and i % 3 == 0 else 2).program())
         guarded.append(g)
+    def count(b, depth):
+        for st in b:
+            stats[f"stmt:{st[0]}@depth{depth}"] += 1
+            if st[0] == "if":
+                count(st[1], depth + 1); count(st[2], depth + 1)
+            elif st[0] == "while":
+                count(st[1], depth + 1)
+            elif st[0] == "for":
+                count(st[2], depth + 1)
+    for p in progs:
+        count(p, 0)
     walks = [walk_oracle(p, rng) for p in progs]
     keep = [i for i, w in enumerate(walks) if w[3]]
     progs, guarded, walks = [progs[i] for i in keep], [guarded[i] for i in keep], [walks[i] for i in keep]
@@ -840,13 +870,13 @@ def run(ctx: C.Ctx):
         "distinct_nontrivial": d_a + d_b,
         "programs": n_b,
         "sketches_compiled": n_sk,
-        "rule": "A: boundary expressions (every node kind _eval_const looks at, each operator with int/float/bool/str operands, error sources, hostile forms) x 3-5 environments (known int/float/bool/str/list/tuple, a marker, an unbound name), then seeded random expressions (harness/pyast_wire.gen_expr, depth 1-4) - each through the extracted model and the real _eval_const/_expr_has_name/_to_c_expr, a sample also through parse() at the blink/backlight/glyph/sleep call sites with the environment set up by assignments; non-trivial (A) = distinct (expression, environment) on which the real evaluator returned a value inside the guard and the CPython comparison ran. B: seeded programs (assign / run-time read / append / remove / len(name) / flash_pattern(name) under if, while, for; 80 % generated inside the guard) with one seeded execution path each (branches taken or not, loops 0-3 times): real parse() IR vs model residual, CPython run vs model reference semantics, firmware run (batched sketches, g++, mock core) vs model firmware outputs; non-trivial (B) = distinct program inside the guard that ran on both sides with >= 2 observations.",
+        "rule": "A: boundary expressions (every node kind _eval_const looks at, each operator with int/float/bool/str operands, error sources, hostile forms) x 3-5 environments (known int/float/bool/str/list/tuple, a marker, an unbound name), then seeded random expressions (harness/pyast_wire.gen_expr, depth 1-4) - each through the extracted model and the real _eval_const/_expr_has_name/_to_c_expr, a sample also through parse() at the blink/backlight/glyph/sleep call sites with the environment set up by assignments; non-trivial (A) = distinct (expression, environment) on which the real evaluator returned a value inside the guard and the CPython comparison ran. B: seeded programs (assign / run-time read / append / remove / len(name) / flash_pattern(name) / lcd.glyph(0, [rows]) under if, while, for; 80 % generated inside the guard) with one seeded execution path each (branches taken or not, loops 0-3 times): real parse() IR vs model residual, CPython run vs model reference semantics, firmware run (batched sketches, g++, mock core) vs model firmware outputs; non-trivial (B) = distinct program inside the guard that ran on both sides with >= 2 observations.",
         "samples": [{"expr": x} for x in s_a] + [{"program": x} for x in s_b],
         "distribution": dict(sorted(stats.items())),
         "guard": "A: in_guard (no one-argument max/min; unary plus only on int/float operands - decided by CPython in the oracle), no variable named like a builtin of _SAFE_NAME_REFERENCES. B: is_fresh (ConstEnv.tblock's ghost flag): no assignment / append / remove to a name with a known transpile-time value inside an if / while / for body, remove only of a known value that is present, append only of a known value - outside: findings F-C03-*",
         "unmodelled": ["IEEE specials, float results that are not exactly representable are compared only CPython-vs-implementation (exact), not against the rational model",
                        "sensor model names (ast.literal_eval fallback), pin folding in device constructors (same _resolve pattern; only blink/backlight/glyph/sleep sites are run)",
-                       "list aliasing between variables (b = a), tuple assignment, augmented assignment in the environment model",
+                       "list aliasing between variables (b = a), tuple assignment, augmented assignment, flash_pattern / glyph with an inline literal containing names (ast.literal_eval path) in the environment model",
                        "str(float) / float(str) / complex results: OutOfModel in PySem (skipped, counted)"],
         "trusted_base": C.COMMON_TRUSTED + ["harness/gen/safecasts.py (operator / cast / safe-name tables of parser.py)",
                                             "Lang/PySem.v as the meaning of Python expressions (validated against CPython by harness/pysem_check.py)",
